@@ -184,6 +184,17 @@ def gen_pool_cases(rng, tier):
             rows.append(("s%d" % i, "".join(s)))
         m = rng.choice(["jc", "k2p", "f81", "tn93", "f84"])
         yield Case("distcpus", [m, 0, 0, "0", rows_str(rows), "_", "_", cpus + ",2,8,16,3"], True, "distcpus-saturated")
+    # ---- finite distances above the "too large" limit (NT_DIST_OVER = 100000: gamma correction with a small shape on
+    #      strongly divergent but unsaturated pairs): every thread count must treat them alike --------------------
+    for _ in range(4 if quick else 40):
+        L = rng.randint(100, 200)
+        base = [rng.choice("ACGT") for _ in range(L)]
+        rows = [("s0", "".join(base))]
+        for i, f in enumerate([0.03, 0.1, rng.choice([0.58, 0.62, 0.66]), rng.choice([0.6, 0.64, 0.7]), 1.0]):
+            idx = set(rng.sample(range(L), int(f * L)))
+            rows.append(("s%d" % (i + 1), "".join(rng.choice([c for c in "ACGT" if c != b]) if j in idx else b for j, b in enumerate(base))))
+        m = rng.choice(["jc", "f81", "k2p", "tn93", "f84"])
+        yield Case("distcpus", [m, 0, 0, rng.choice(["0.1", "0.05", "0.2"]), rows_str(rows), "_", "_", "1,2,1,4,3"], True, "distcpus-huge-finite")
     for _ in range(12 if quick else 120):
         rows = rand_alignment(rng, nrows=rng.randint(4, 8))
         n = len(rows)
